@@ -120,6 +120,10 @@ def jobs_for(pid, rep):
         for i in range(24 if thorough else 6):
             g = gen.Gen(rng.randrange(1 << 30), focus={"insert": 6, "remove": 4, "update": 4, "drop": 1, "repeat": 0.3}, handles=0.1)
             add(g.history(g.r.choice([8, 14]), p_read=0.3), i % 2, {"io": True, "symlink": True})
+        # the database file has a second hard link (a snapshot made with ln / cp -l): rewrites must not depend on the link count
+        for i in range(16 if thorough else 4):
+            g = gen.Gen(rng.randrange(1 << 30), focus={"insert": 6, "remove": 4, "update": 4, "drop": 1, "repeat": 0.3}, handles=0.1)
+            add(g.history(g.r.choice([8, 14]), p_read=0.3), i % 2, {"io": True, "hardlink": True})
         # batches of several hundred points in one call (list / iterator); contents read back from the file decide
         for i in range(4 if thorough else 2):
             g = gen.Gen(rng.randrange(1 << 30), handles=0.0)
@@ -215,6 +219,10 @@ def jobs_for(pid, rep):
             for i in range(30 if thorough else 8):
                 g = gen.Gen(rng.randrange(1 << 30), focus=focus, handles=0.0)
                 add(g.history(g.r.choice([8, 14]), p_read=0.2), i % 2, {"io": True, "symlink": True})
+            # the database file has a second hard link
+            for i in range(24 if thorough else 6):
+                g = gen.Gen(rng.randrange(1 << 30), focus=focus, handles=0.0)
+                add(g.history(g.r.choice([8, 14]), p_read=0.2), i % 2, {"io": True, "hardlink": True})
             # access mode "w+": the file is emptied when the database is opened, never by a rewrite later on
             for i in range(30 if thorough else 8):
                 g = gen.Gen(rng.randrange(1 << 30), focus=focus, handles=0.0)
@@ -279,6 +287,25 @@ def jobs_for(pid, rep):
             ops.append({"op": "update_all", "u": u, "fail": 0})
             ops.append({"op": "all", "m": concretise.NONE, "sorted": 0})
             add(ops, i % 2, {"io": True})
+        # updates of the time to the instant a point already has - given in another UTC offset or as a naive local datetime
+        # (time-edge theme), static and through a callable, on rows with compact and long prefixes: the same instant, so
+        # nothing changes, 0 is reported and nothing may be written
+        for i in range(80 if thorough else 10):
+            g = gen.Gen(rng.randrange(1 << 30), handles=0.0)
+            ops = []
+            ranks = g.r.sample(range(0, 11), g.r.choice([3, 4, 5]))
+            for t in sorted(ranks) if i % 3 else ranks:
+                pt = g.point(t)
+                pt["t"] = t
+                ops.append({"op": "insert", "p": pt, "m": concretise.NONE, "compact": 1 if i % 4 in (1, 2) else 0})
+            for t in ranks:
+                tq = {"k": "time", "key": 0, "key2": 0, "mf": 0, "op": "eq", "v": t, "tf": 0}
+                u = {"tk": 1, "tv": t, "mk": 0, "mv": 0, "tgk": 0, "tgv": [], "fdk": 0, "fdv": [], "utg": [], "ufd": []}
+                ops.append({"op": "update", "q": tq, "m": concretise.NONE, "u": u, "fail": 0})
+                ops.append({"op": "update", "q": tq, "m": concretise.NONE, "u": dict(u, tk=2, tv=0), "fail": 0})
+            ops.append({"op": "update_all", "u": {"tk": 2, "tv": 0, "mk": 0, "mv": 0, "tgk": 0, "tgv": [], "fdk": 0, "fdv": [], "utg": [], "ufd": []}, "fail": 0})
+            ops.append({"op": "all", "m": concretise.NONE, "sorted": 0})
+            add(ops, i % 2, {"io": True, "theme": "time-edge"})
         # access modes
         for i in range(600 if thorough else 24):
             g = gen.Gen(rng.randrange(1 << 30), focus={"insert": 3, "remove": 3, "update": 3, "update_all": 1, "drop": 2, "remove_all": 2, "reindex": 1}, handles=0.2)
@@ -301,7 +328,7 @@ def real_kills(recorded, jobs, n, rng):
     byid = {j[0]: j for j in jobs}
     for t in recorded:
         job = byid[t["id"]]
-        if job[7].get("prefill") or job[7].get("mode") or job[7].get("symlink"):
+        if job[7].get("prefill") or job[7].get("mode") or job[7].get("symlink") or job[7].get("hardlink"):
             continue
         for j, e in enumerate(t["events"]):
             if "io" in e and e["io"]["counted"] and not e["exc"] and e["a"]["op"] not in traces.READ_C01 | traces.READ_C07:
@@ -421,6 +448,30 @@ def run(pid):
                           {"kind": "csv", "auto_index": tr["auto_index"], "ops": [e["a"] for e in tr["events"][:step]],
                            "opts": {k: v for k, v in opts.items() if k != "prefill_points"}, "prefill": len(opts.get("prefill_points") or []),
                            "clause": err["clause"], "expected": err["expected"]}, tags=tags)
+    nfault = 0
+    if pid == "C15":
+        # "... once it has returned OR RAISED": every I/O call of every operation of a few histories fails once (the fault jobs of C13);
+        # TLC's clause fault_tmp of Trace_TinyFlux requires that nothing is left in the temp / database directory afterwards
+        import c13
+        fjobs = c13.fault_jobs(random.Random(rep.seed * 31 + 15), 60 if thorough else 6, thorough, per_op=24)
+        frec = traces.record_faults(fjobs)
+        fverd, fjs = traces.judge(frec)
+        js = {"states": js["states"] + fjs["states"], "transitions": js["transitions"] + fjs["transitions"], **{k: v for k, v in js.items() if k not in ("states", "transitions")}}
+        fby = {t["id"]: t for t in frec}
+        nfault = sum(1 for t in frec if t["events"][-1].get("fault", {}).get("injected"))
+        for tid, v in fverd.items():
+            tr = fby[tid]
+            for err in traces.errors(v):
+                if err["clause"] != "fault_tmp":
+                    other["C13"] = other.get("C13", 0) + 1
+                    continue
+                ev = traces.failing_event(tr, err)
+                f = ev["fault"]
+                rep.violation("csv storage, auto_index=%d, history of %d call(s), then %s with OSError injected at I/O call '%s' (caller saw %s): %d file(s) left behind "
+                              "in the temp / database directory" % (tr["auto_index"], len(tr["events"]) - 1, json.dumps(ev["a"])[:300], f["at"], ev["exc"] or "no error", f["tmp"]),
+                              {"auto_index": tr["auto_index"], "ops": [e["a"] for e in tr["events"]], "fault_at": f["at"], "clause": "fault_tmp"},
+                              tags={"clause:fault_tmp", "op:" + ev["a"]["op"], "at:" + f["at"]})
+                break
     nbound = sum(len(e["io"]["snaps"]) for t in recorded for e in t["events"] if "io" in e)
     nev = sum(len(t["events"]) for t in recorded)
     if pid == "C16":
